@@ -100,6 +100,9 @@ def rule_R14_1(ctx):
     if not r.require_floor("list-item evaluator", len(lists), 1):
         return r
     g = lists[0]
+    if not any((not c.is_ptr) and c.res in evs and g.in_any_loop(c.bb) for c in g.calls()):
+        import inline
+        g = inline.view(prog, g)     # per-item helper
     loops = g.natural_loops()
     ev_in_loop = [c for c in g.calls() if not c.is_ptr and c.res in evs and g.in_any_loop(c.bb)]
     revs = [c for c in g.calls() if (c.res or "").split("::")[-1] in ("rev", "next_back", "rfold", "rposition")]
